@@ -18,18 +18,25 @@ open SamVerif.Doc
 open SamVerif.CommentQueue (Comment Kind)
 abbrev Str := List Char
 
+/-- An imported member: its name and the comments the parser stored on the identifier
+(printed in front of it since /repo commit 4b614da). -/
+structure Member where
+  comments : List Comment
+  name : Str
+  deriving Repr, DecidableEq, Inhabited
+
 /-- One `import { members } from path` line as parsed (`ModuleMembersImport`). -/
 structure Import where
   path : Str
   comments : List Comment
-  members : List Str
+  members : List Member
   deriving Repr, DecidableEq, Inhabited
 
 /-- One printed line: module path, the comment lists of the merged lines (source order), members. -/
 structure Group where
   path : Str
   comments : List (List Comment)
-  members : List Str
+  members : List Member
   deriving Repr, DecidableEq, Inhabited
 
 /-- The loop body of source_printer.rs:1264-1274. -/
@@ -57,7 +64,7 @@ def sortBy {α : Type} (le : α → α → Bool) (l : List α) : List α := l.fo
 /-- source_printer.rs:1276-1290. -/
 def sortedGroups (imps : List Import) : List Group :=
   (sortBy (fun a b => strLe a.path b.path) (organize imps)).map fun g =>
-    { g with members := sortBy strLe g.members }
+    { g with members := sortBy (fun a b => strLe a.name b.name) g.members }
 
 /-- The per-comment documents of `associated_comments_doc` (41-55). -/
 def commentDocs (c : Comment) : List Doc :=
@@ -74,6 +81,23 @@ def commentsDoc (cs : List Comment) (addFinal : Bool) : Option Doc :=
   let main := concatV (if soft then docs.dropLast else docs)
   some (if addFinal && soft then .concat main .line else main)
 
+/-- `associated_comments_doc(.., Grouped, add_final_line_break)` (33-80). -/
+def commentsDocGrouped (cs : List Comment) (addFinal : Bool) : Option Doc :=
+  let docs := cs.flatMap commentDocs
+  if docs.isEmpty then none else
+  let soft := decide (docs.getLast? = some .line)
+  let main := group (concatV (if soft then docs.dropLast else docs))
+  some (if addFinal && soft then .concat main .line else main)
+
+/-- `create_opt_preceding_comment_doc` (82-99). -/
+def optPreceding (cs : List Comment) (main : Doc) : Doc :=
+  match commentsDocGrouped cs true with
+  | some cd => group (.concat cd main)
+  | none => main
+
+/-- `id_to_doc` for an imported member. -/
+def memberDoc (m : Member) : Doc := optPreceding m.comments (.nstext m.name)
+
 /-- `comma_sep_list` without ending comments (101-133). -/
 def commaSep : List Doc → Doc
   | [] => .nil
@@ -84,7 +108,7 @@ def commaSep : List Doc → Doc
 def importDoc (g : Group) : Doc :=
   concatV ((match commentsDoc g.comments.flatten true with | some d => [d] | none => []) ++
     [.text "import ".toList,
-     bracketFlexible ['{'] .line (commaSep (g.members.map .nstext)) ['}'],
+     bracketFlexible ['{'] .line (commaSep (g.members.map memberDoc)) ['}'],
      .text " from ".toList, .nstext g.path, .text [';'], .lineHard])
 
 /-- The document of a module that consists of import lines only (1260-1302 with no toplevels and no
